@@ -285,6 +285,10 @@ class CumProd(Sequential):
         axis = self.axis
         g = grad
 
+        if x.ndim == 0:
+            # np.cumprod treats a 0-d operand as a 1-element sequence
+            axis = None
+
         if axis is None:
             orig_shape = x.shape
             x = x.ravel()
